@@ -403,6 +403,6 @@ func TestC16(t *testing.T) {
 			}
 		}
 	}
-	c16Decode.Run(s, hx.PerShard(hx.Pick(400000, 6000000)))
+	c16Decode.Run(s, hx.PerShard(hx.Pick(400000, 24000000)))
 	c16Decode.RunConcurrent(s, 8, hx.Pick(3000, 40000))
 }
